@@ -509,6 +509,7 @@ def h_domain_text(X):
 def obligations(tier):
     q = tier == "quick"
     n_diff, n_auth, n_seg, n_conn, n_segconn = (12, 12, 10, 24, 12) if q else (14, 14, 12, 30, 24)
+    n_segauth = 11 if q else 12
     obs = [
         Symx("differential-noauth", lambda X: h_diff(X, n_diff, False), bounds=f"all 256^{n_diff} client byte strings of length {n_diff} (greeting+request+trailing data), no proxyauth",
              encoded=ENCODED, must_reach=["judged", "connect", "reject", "pending", "lenient-case"], stubs=STUBS, parallel_depth=3),
@@ -520,7 +521,7 @@ def obligations(tier):
              encoded=ENCODED, must_reach=["judged", "connect", "reject", "pending", "validator-consulted"], stubs=STUBS, parallel_depth=3),
         Symx("segmentation-2way", lambda X: h_seg(X, n_seg, False), bounds=f"all 256^{n_seg} byte strings x every cut point 1..{n_seg - 1}: whole vs split, prefix outcome vs reference, extension lemma",
              encoded=ENCODED, must_reach=["judged", "extended-after-refusal"] + (["extended-after-connect"] if n_seg >= 11 else []), stubs=STUBS, parallel_depth=3),
-        Symx("segmentation-2way-auth", lambda X: h_seg(X, n_seg, True, "auth"), bounds=f"proxyauth, after a concrete greeting: all 256^{n_seg} byte strings x every cut point",
+        Symx("segmentation-2way-auth", lambda X: h_seg(X, n_segauth, True, "auth"), bounds=f"proxyauth, after a concrete greeting: all 256^{n_segauth} byte strings x every cut point",
              encoded=ENCODED, must_reach=["judged", "extended-after-refusal", "extended-after-connect"], stubs=STUBS, parallel_depth=3),
         Symx("segmentation-connect", lambda X: h_seg(X, n_segconn, False, "connect"), bounds=f"after a concrete greeting: all 256^{n_segconn} request byte strings x every cut point",
              encoded=ENCODED, must_reach=["judged", "extended-after-refusal", "extended-after-connect"], stubs=STUBS, parallel_depth=0 if q else 3),
